@@ -15,6 +15,7 @@ import (
 	logging "github.com/formancehq/go-libs/v5/pkg/observe/log"
 
 	"github.com/formancehq/ledger/internal/api"
+	"github.com/formancehq/ledger/internal/api/bulking"
 	"github.com/formancehq/ledger/verifharness/pgmodel"
 )
 
@@ -48,6 +49,8 @@ func (s *Stack) Router() http.Handler {
 	if s.router == nil {
 		s.router = api.NewRouter(s.Sys, jwt.NewNoAuth(), nil, "verif", os.Getenv("VH_DEBUG") != "",
 			api.WithExporters(false),
+			// production wires the bulker factory in internal/api/module.go; without it /_bulk nil-derefs
+			api.WithBulkerFactory(bulking.NewDefaultBulkerFactory(bulking.WithParallelism(10))),
 		)
 	}
 	return s.router
